@@ -22,9 +22,9 @@ MCOutcome(r) ==
     [] r = "longphrase" -> [k |-> "fail", err |-> 34, validated |-> FALSE, key |-> "-", star1 |-> FALSE]
 
 VARIABLES obj, nr, gsbuf, deskey, hnd, heap, errno, ret, last, hist
-CONSTANTS MCObj, MCHnd, MCBlk, MCReqs
+CONSTANTS MCObj, MCHnd, MCBlk, MCReqs, MCTokenFirst
 X == INSTANCE XCrypt WITH Obj <- MCObj, Hnd <- MCHnd, Blk <- MCBlk,
-                          Req <- MCReqs, OutcomeOf <- MCOutcome
+                          Req <- MCReqs, OutcomeOf <- MCOutcome, TokenFirst <- MCTokenFirst
 
 vars == <<obj, nr, gsbuf, deskey, hnd, heap, errno, ret, last, hist>>
 
